@@ -262,7 +262,9 @@ IamOp(e, acc) ==
 IdsOKIn(ids, nm) == \A i \in 1..Len(ids) : Grants(ids[i].acts) \subseteq NamedOf(nm, ids[i].name)
 (* a real request signed (V4 header) with the IAM-made key `key` of `user` *)
 AsActs(P) == {[a |-> p[1], b |-> p[2]] : p \in P}
-IReqOK(e) == Reached(e) => (<<e.user, e.key>> \in live /\ Permits(AsActs(NamedOf(named, e.user)), e.route, e.bucket))
+(* e.sec = "old": signed with the secret the key had before an operator replaced it (RotateSecret keeps the access
+   key id): such a request carries no valid signature and must not reach anything *)
+IReqOK(e) == Reached(e) => (e.sec = "cur" /\ <<e.user, e.key>> \in live /\ Permits(AsActs(NamedOf(named, e.user)), e.route, e.bucket))
 
 (* ---------------- streaming-signed uploads (layer A) ---------------- *)
 (* e.chunks = <<[n |-> bytes, k |-> kind]>>: ok | baddata (a byte changed after signing) | badsig (signature
